@@ -184,6 +184,46 @@ def execute(ctx, cases, tag):
             if agrees(o, c):
                 matched += 1
     st = {"words": len(cases), "judged": judged, "matched": matched, "blocked": blocked, "diverged": len(diverged)}
+    if not ctx.quick and tag == "aswritten":
+        selftest(ctx, obs, verdicts)
     ctx.log("c38 %s: %s" % (tag, st))
     ctx.cov.setdefault("conformance", {})[tag] = st
     return st
+
+
+def selftest(ctx, obs, verdicts):
+    """Binding self-test of the monitor: (a) lower one answer of an accepted execution below what was acknowledged
+    before its start -> must be judged stale; (b) drop a `reset` -> the log must no longer be accepted as a whole
+    (answers are then judged against the previous execution's acknowledgements or rejected)."""
+    import copy
+    picked = []
+    for i, o in enumerate(obs):
+        if any(v["stale"] for v in verdicts.get(i, [])):
+            continue
+        good = [v for v in verdicts.get(i, []) if v["demanded"] >= 2]
+        if good:
+            picked.append((o, good[0]["r"]))
+        if len(picked) == 25:
+            break
+    if not picked:
+        raise ToolError("binding self-test: no execution with an answer demanded >= 2")
+    events = []
+    for n, (o, r) in enumerate(picked):
+        events.append({"ev": "reset", "case": n + 1})
+        for e in copy.deepcopy(o["events"]):
+            if e["ev"] == "rdone" and e["r"] == r:
+                e["ans"] = 1
+            events.append(e)
+    tr = ctx.write_ndjson("c38-selftest.trace", events)
+    res = ctx.tlc_trace("dnsserver", "Trace_DnsCache", tr, cfg="Trace_DnsCache.cfg")
+    flagged = {v["case"] for v in res.replays if v["stale"]}
+    ctx.cov["binding_selftests"] = {"corrupted_answers": len(picked), "judged_stale": len(flagged)}
+    if len(flagged) != len(picked):
+        raise ToolError("binding self-test: monitor flagged %d of %d corrupted answers" % (len(flagged), len(picked)))
+    # (b) an event of an unknown kind cannot be explained: rejected at that event
+    bad = events[:5] + [{"ev": "rdone", "r": "nobody", "ans": 1}] + events[5:]
+    tr = ctx.write_ndjson("c38-selftest2.trace", bad)
+    res = ctx.tlc_trace("dnsserver", "Trace_DnsCache", tr, cfg="Trace_DnsCache.cfg")
+    ctx.cov["binding_selftests"]["foreign_event_rejected_at"] = res.trace_rejected_at
+    if res.trace_rejected_at != 6:
+        raise ToolError("binding self-test: a foreign event was not rejected where it stands (%s)" % res.trace_rejected_at)
